@@ -43,6 +43,8 @@ def run(ck: Check) -> None:
     k4(ck)
     k5(ck)
     k6(ck)
+    k7(ck)
+    ck.floor("K7", 2)
     ck.floor("K1", 6)
     ck.floor("K2", 8)
     ck.floor("K3", 5)
@@ -904,6 +906,89 @@ def k5(ck: Check) -> None:
                             and text(sd[1].args[0]) == fm.f.params()[1]):
                         probs.append("NFVS is not computed on the node's own percolated network")
                 ck.ob("K5", fm, fm.f.stmt_of(n), not probs, "; ".join(probs) if probs else "NFVS parity negative/none on the node's network")
+
+
+# ------------------------------------------------------------------------------------------ K7
+def k7(ck: Check) -> None:
+    """A retained set must give a value to *every* variable of the NFVS: with a partial retained set the remaining
+    negative cycles still oscillate, the reduced STG has fewer (often no) fixed points and 'no candidate' proves nothing.
+    Every loop that fills a retained set variable by variable visits the whole NFVS: it has no early exit, and every
+    iteration leaves its variable in the set."""
+    from .c13 import _within, _tbranch
+    n_ = 0
+    prog = ck.prog
+    # roles: NFVS-valued names (results of node_percolated_nfvs, and parameters that receive one), retained-set names
+    # (second argument of the reduced-STG solver / the greedy optimiser, and what make_heuristic_retained_set returns)
+    nfvs_names: dict[str, set[str]] = {}
+    rs_names: dict[str, set[str]] = {}
+    models = [m for m in prog.models() if m.f.module.name == CAND_MOD]
+    for m in models:
+        for x in own_walk(m.f.node):
+            if isinstance(x, ast.Assign) and isinstance(x.targets[0], ast.Name) and isinstance(x.value, ast.Call) \
+                    and callee_name(x.value) == "node_percolated_nfvs":
+                nfvs_names.setdefault(m.f.key, set()).add(x.targets[0].id)
+            if isinstance(x, ast.Call) and callee_name(x) in ("compute_fixed_point_reduced_STG", "compute_fixed_point_reduced_STG_async",
+                                                              "asp_greedy_retained_set_optimization"):
+                idx = 3 if callee_name(x) == "asp_greedy_retained_set_optimization" else 1
+                a_ = call_arg(x, idx, "retained_set")
+                if isinstance(a_, ast.Name):
+                    rs_names.setdefault(m.f.key, set()).add(a_.id)
+        if m.f.name == "make_heuristic_retained_set":
+            for r in own_walk(m.f.node):
+                if isinstance(r, ast.Return) and isinstance(r.value, ast.Name):
+                    rs_names.setdefault(m.f.key, set()).add(r.value.id)
+    for _ in range(2):
+        for m in models:
+            for x in own_walk(m.f.node):
+                if isinstance(x, ast.Call):
+                    tgt = prog.repo.resolve_call(m.f, x)
+                    if tgt and tgt in prog.repo.functions and tgt.startswith(CAND_MOD + ":"):
+                        ps = prog.repo.functions[tgt].params()
+                        for i, p_ in enumerate(ps):
+                            a_ = call_arg(x, i, p_)
+                            if isinstance(a_, ast.Name) and a_.id in nfvs_names.get(m.f.key, set()):
+                                nfvs_names.setdefault(tgt, set()).add(p_)
+    for fm in models:
+        f = fm.f
+        for lp in own_walk(f.node):
+            if not (isinstance(lp, ast.For) and isinstance(lp.target, ast.Name)):
+                continue
+            v = lp.target.id
+            stores = [s_ for s_ in ast.walk(lp) if isinstance(s_, ast.Assign) and isinstance(s_.targets[0], ast.Subscript)
+                      and isinstance(s_.targets[0].value, ast.Name) and text(s_.targets[0].slice) == v
+                      and s_.targets[0].value.id in rs_names.get(f.key, set())]
+            it = lp.iter
+            while isinstance(it, ast.Call) and callee_name(it) in ("sorted", "list", "enumerate") and it.args:
+                it = it.args[0]
+            if not stores or not (isinstance(it, ast.Name) and it.id in nfvs_names.get(f.key, set())):
+                continue
+            q = f.name
+            n_ += 1
+            RS = stores[0].targets[0].value.id
+            probs = []
+            for x in ast.walk(lp):
+                if isinstance(x, (ast.Break, ast.Return)) and fm.cfg.enclosing_loops(fm.cfgn(x))[:1] == [lp]:
+                    probs.append(f"line {x.lineno}: `{text(x)[:30]}` leaves the loop before every NFVS variable has a value: the "
+                                 f"retained set stays partial, and an empty or small candidate list obtained with it says "
+                                 f"nothing about the node (attractors get no candidate)")
+            hdr = fm.cfg.loop_header[lp]
+            cuts = {fm.cfgn(s_).id for s_ in stores}
+            # an iteration that stores nothing must know that the variable is in the set already
+            for b in fm.cfg.nodes:
+                if b.kind == "branch" and b.test is not None and b.id in fm.cfg.loop_nodes[lp]:
+                    t, pol = b.test, b.pol
+                    while isinstance(t, ast.UnaryOp) and isinstance(t.op, ast.Not):
+                        t, pol = t.operand, not pol
+                    if isinstance(t, ast.Compare) and len(t.ops) == 1 and text(t.left) == v and text(t.comparators[0]) == RS \
+                            and ((isinstance(t.ops[0], ast.In) and pol) or (isinstance(t.ops[0], ast.NotIn) and not pol)):
+                        cuts.add(b.id)
+            if hdr.id in _within(fm, lp, _tbranch(fm, lp), cuts):
+                probs.append("an iteration can pass without giving its NFVS variable a value in the retained set")
+            ck.ob("K7", fm, lp, not probs, "; ".join(probs) if probs else
+                  f"every NFVS variable gets a value in `{RS}` (no early exit, no iteration without a store)",
+                  key=f"retained set covers the NFVS ({q})")
+    if n_ == 0:
+        raise AnalysisError("anchor vanished: loops that fill a retained set over the NFVS")
 
 
 # ------------------------------------------------------------------------------------------ K6
